@@ -550,7 +550,15 @@ class ExternalRef(Obj):
 
 
 class ExternalFunc:
-    """Wraps a python callable(args, kw, ev, node) as an abstract callable value."""
+    """Wraps a python callable(args, kw, ev, node) as an abstract callable value. `attrs` holds callables reachable as
+    attributes of it (itertools.chain.from_iterable)."""
+    attrs: Dict[str, Any] = {}
+
+    def abs_getattr(self, name, ev, node):
+        a = self.__dict__.get("attrs") or {}
+        if name in a:
+            return a[name]
+        raise Unsupported(f"attribute {name} of a library function", node)
 
     def __init__(self, fn):
         self.fn = fn
